@@ -56,8 +56,8 @@ Print Assumptions C02_levels_complete.
 (* verification fails exactly when integrity fails, or a validation whose action is enforce
    failed, or there is a plugin / attribute problem: the demanded plugin is unusable (malformed
    demand, no manager, not installed, metadata error, invalid or too low version, no verification
-   capability), was executed and failed / omitted a verdict it was asked for / left an attribute
-   unprocessed, or the signature demands no plugin and carries a critical extended attribute
+   capability), was executed and failed / omitted a verdict it was asked for / left a critical
+   attribute unprocessed, or the signature demands no plugin and carries a critical extended attribute
    (integer-labelled ones included) *)
 Theorem C02_exact : forall lvl sc, wf_sc sc = true ->
   (accepted (verify_core lvl sc) = false <->
@@ -97,11 +97,8 @@ Proof. exact full_refuted. Qed.
 Print Assumptions C02_full_refuted.
 
 (* outside that footprint (plugin demanded and usable, none of its capabilities asked, critical
-   attribute present) the rule the property states holds exactly; the implementation's additional
-   strictness (an executed plugin must also acknowledge non-critical attributes) is excluded by
-   the second hypothesis and exhibited by C02_noncritical_strictness *)
-Theorem C02_exact_partial : forall lvl sc, wf_sc sc = true ->
-  f12b lvl sc = false -> noncrit_unprocessed lvl sc = false ->
+   attribute present) the rule the property states holds exactly — non-critical attributes included *)
+Theorem C02_exact_partial : forall lvl sc, wf_sc sc = true -> f12b lvl sc = false ->
   (accepted (verify_core lvl sc) = false <-> should_fail_full lvl sc = true).
 Proof. exact exact_partial. Qed.
 Print Assumptions C02_exact_partial.
@@ -119,13 +116,15 @@ Theorem C02_critical_processed_partial : forall lvl sc, wf_sc sc = true ->
 Proof. exact critical_processed_partial. Qed.
 Print Assumptions C02_critical_processed_partial.
 
-(* a rejection the property does not list: the executed plugin leaves a NON-critical attribute
-   unacknowledged (getNonPluginExtendedCriticalAttributes does not test attr.Critical) *)
-Theorem C02_noncritical_strictness :
-  exists lvl sc, wf_sc sc = true /\ should_fail_full lvl sc = false /\ other_crit sc = []
-                 /\ accepted (verify_core lvl sc) = false.
-Proof. exact noncritical_strictness. Qed.
-Print Assumptions C02_noncritical_strictness.
+(* the pre-fix code (before 6f898df: processPluginResponse demanded that the executed plugin also
+   acknowledge NON-critical attributes) rejected an input for which the property lists no reason;
+   the code as it is now accepts it *)
+Theorem C02_noncritical_strictness_v0_refuted :
+  exists lvl sc, wf_sc sc = true /\ f12b lvl sc = false /\ should_fail_full lvl sc = false /\ other_crit sc = []
+                 /\ accepted (verify_core_v0 lvl sc) = false
+                 /\ accepted (verify_core lvl sc) = true.
+Proof. exact noncritical_strictness_v0_refuted. Qed.
+Print Assumptions C02_noncritical_strictness_v0_refuted.
 
 (* ------------------------------------------------------------------ *)
 (* log reports, skip does nothing, capabilities replace                *)
